@@ -142,6 +142,10 @@ def drain_discipline(ctx):
                       'shuts down) emptied the container after the loop test: the exception escapes from disconnect, the remaining containers are not drained '
                       '- shutdown by both sides at once does not complete', f)
     if n < 3:
+        closures = [c for lst in f.nested.values() for nf in lst for c in calls_in(nf.node) if isinstance(c.func, ast.Attribute) and isinstance(c.func.value, ast.Attribute)
+                    and dotted(c.func.value.value) == 'self' and c.func.value.attr in _request_containers() and c.func.attr in _request_containers()[c.func.value.attr]]
+        if closures:
+            raise AnchorMissing(f'`{src(closures[0])}`: the request containers are drained through local closures of disconnect - not decided in this form')
         raise AnchorMissing('drains of txq / pending / active_requests not found in disconnect', violation='frappy.client.SecopClient.disconnect:all three request containers are drained')
 
 
@@ -206,9 +210,8 @@ def shutdown_protocol(ctx):
     f = m.method(C, 'disconnect', inherited=False)
     ctx.analysed(f)
     cfg = CFG(f.node, m, f.module)
-    first = f.node.body[0]
-    if isinstance(first, ast.Expr) and isinstance(first.value, ast.Constant):
-        first = f.node.body[1]
+    first = next((x for x in f.node.body if not (isinstance(x, ast.Expr) and isinstance(x.value, ast.Constant)) and
+                  not isinstance(x, (ast.FunctionDef, ast.ClassDef))), f.node.body[0])      # (docstring and local helper definitions do nothing)
     ok = isinstance(first, ast.Assign) and src(first.targets[0]) == 'self._running' and isinstance(first.value, ast.Constant) and first.value.value is False
     ctx.check(ok, f'{f.qualname}:running flag cleared first', first, 'self._running = False is the first statement',
               'disconnect does not start by clearing the running flag: worker threads keep looping', f)
@@ -216,6 +219,11 @@ def shutdown_protocol(ctx):
     joins = [i for c in calls_in(f.node) if call_attr(c) == 'join' and src(c.func.value) in ('self._txthread', 'self._rxthread') for i in cfg.node_of(c)]
     drains = [i for c, o, site in deep_calls(m, f, lambda c: call_attr(c) == 'popitem' and 'active_requests' in src(c.func)) for i in cfg.node_of(site)]
     if not joins or not drains:
+        indirect = [c for c in calls_in(f.node) if call_attr(c) == 'join' and isinstance(c.func.value, ast.Call) and dotted(c.func.value.func) == 'getattr'] or \
+            [c for lst in f.nested.values() for nf in lst for c in calls_in(nf.node) if call_attr(c) == 'popitem' and 'active_requests' in src(c.func)]
+        if indirect:
+            raise AnchorMissing(f'`{src(indirect[0])}`: the worker threads are joined through a table of attribute names / the containers are drained through local '
+                                'closures - the shutdown order is not decided in this form')
         raise AnchorMissing('joins / active_requests drain not found in disconnect', violation='frappy.client.SecopClient.disconnect:joins and drain present')
     ok = not (cfg.reach(drains) & set(joins))
     ctx.check(ok, f'{f.qualname}:waiters released after the workers stopped', f.node, 'no join is reachable after the drain of active_requests',
@@ -262,6 +270,9 @@ def error_matching(ctx):
     from sa.lib import deep_nodes
     # the unit that does the matching: the receive thread itself or a helper method it calls (not expanded in place)
     units = [fi] + [h for site, h in helper_methods_called(m, fi)]
+    # ... or a module level function the reply is handed to (a generator of the keys under which the reply may be expected)
+    units += [g for c in calls_in(fi.node) if isinstance(c.func, ast.Name) for g in [m.functions.get(f'{fi.module.name}.{c.func.id}')]
+              if g is not None and g.cls is None and 'REQUEST2REPLY' in src(g.node, 9000)]
     unit = next((u for u in units if any((isinstance(n, ast.Subscript) and src(n.value) == 'REQUEST2REPLY') or
                                          (isinstance(n, ast.Call) and call_attr(n) == 'get' and src(n.func.value) == 'REQUEST2REPLY')
                                          for n in body_walk(u.node))), None)
@@ -279,10 +290,16 @@ def error_matching(ctx):
             return not tv and isinstance(a, ast.Call) and call_attr(a) == 'startswith' and a.args and src(a.args[0]) == 'ERRORPREFIX'
         err_side = sides_with_fact(ucfg, is_error)
         noerr_side = sides_with_fact(ucfg, not_error)
-        maps = [n for n in body_walk(unit.node) if ((isinstance(n, ast.Subscript) and src(n.value) == 'REQUEST2REPLY' and 'len(ERRORPREFIX)' in src(n.slice)) or
+        maps = [n for n in body_walk(unit.node) if ((isinstance(n, ast.Subscript) and src(n.value) == 'REQUEST2REPLY' and 'len(ERRORPREFIX)' in src(resolved(n.slice, unit.node))) or
                                                      (isinstance(n, ast.Call) and call_attr(n) == 'get' and src(n.func.value) == 'REQUEST2REPLY' and n.args
-                                                      and 'len(ERRORPREFIX)' in src(n.args[0])))]
-        ok = bool(maps) and all((st := next((a for a in ancestors(n) if isinstance(a, ast.stmt)), None)) is not None and set(ucfg.ids(st)) <= err_side for n in maps)
+                                                      and 'len(ERRORPREFIX)' in src(resolved(n.args[0], unit.node))))]
+
+        def sliced_only_for_errors(n):
+            # `failed = action[len(ERRORPREFIX):] if action.startswith(ERRORPREFIX) else None`: the slice is the error branch of the expression
+            key = resolved(n.slice if isinstance(n, ast.Subscript) else n.args[0], unit.node)
+            return isinstance(key, ast.IfExp) and is_error(key.test, True) and 'len(ERRORPREFIX)' in src(key.body) and 'len(ERRORPREFIX)' not in src(key.orelse)
+        ok = bool(maps) and all(((st := next((a for a in ancestors(n) if isinstance(a, ast.stmt)), None)) is not None and set(ucfg.ids(st)) <= err_side)
+                                or sliced_only_for_errors(n) for n in maps)
         ctx.check(ok, f'{fi.qualname}:error reply matched to its request', unit.node,
                   'REQUEST2REPLY[action[len(ERRORPREFIX):]] under `action.startswith(ERRORPREFIX)`',
                   'an error_<action> reply is not mapped back to the pending request through REQUEST2REPLY: the caller times out', unit)
@@ -299,8 +316,11 @@ def error_matching(ctx):
                 nones.append(n)
         # ... and it IS tried for the error of an unknown action: with REQUEST2REPLY[...] the KeyError handler does it, with
         # REQUEST2REPLY.get(...) there has to be a None-key fall-back on the side where the lookup found nothing
+        # the fall-back as an expression: `yield (expected, ident) if expected else None` / `key = (..) if expected else None`
+        expr_fallback = [x for x in body_walk(unit.node) if isinstance(x, ast.IfExp) and isinstance(x.test, ast.Name) and x.test.id in mapped
+                         and isinstance(x.orelse, ast.Constant) and x.orelse.value is None]
         for g in [x for x in maps if isinstance(x, ast.Call)]:
-            fallback = [n for n in nones if set(ucfg.ids(n)) and set(ucfg.ids(n)) <= unknown_side]
+            fallback = [n for n in nones if set(ucfg.ids(n)) and set(ucfg.ids(n)) <= unknown_side] + expr_fallback
             ctx.check(bool(fallback), f'{fi.qualname}:error of an unknown action reaches the catch-all slot', g, 'None key tried when the action is not in REQUEST2REPLY',
                       f'`{src(g)}` yields None for an action that is not in REQUEST2REPLY, and that None ends up inside the key (`(None, ident)`) instead of the '
                       'catch-all key None: the error reply to a request with an unknown action is never delivered, its caller waits for the time-out', unit)
@@ -343,6 +363,15 @@ def cleanup_removes_by_identity(ctx):
         for c in [c for c in calls_in(l) if call_attr(c) in ('pop', 'popitem') and 'active_requests' in src(c.func)] + \
                  [d for d in walk_local(l) if isinstance(d, ast.Delete) and 'active_requests' in src(d)]:
             ok = any(isinstance(a, ast.If) and isinstance(a.test, ast.Compare) and all(isinstance(o, ast.Is) for o in a.test.ops) for a in ancestors(c))
+            if not ok and isinstance(c, ast.Call) and c.args and isinstance(c.args[0], ast.Name):
+                # the key is searched first: `key = next((k for k, e in list(...items()) if e is entry), MISSING)` - the identity test
+                # is the filter of the search over the table, and what is popped is the key that search found
+                for v, st, how in local_assigns(rx.node, c.args[0].id):
+                    if v is not None and any(isinstance(g, (ast.GeneratorExp, ast.ListComp)) and
+                                             any('active_requests' in src(gen.iter) and
+                                                 any(isinstance(t, ast.Compare) and len(t.ops) == 1 and isinstance(t.ops[0], ast.Is) for t in gen.ifs) for gen in g.generators)
+                                             for g in ast.walk(v)):
+                        ok = True
             ctx.check(ok, f'{rx.qualname}:cleanup by identity', c, 'removal guarded by `prev is entry`',
                       f'`{src(c)}` removes the entry found under the key of the timed-out request without checking that it is that request: a newer '
                       'request with the same action and specifier is dropped and its caller waits for the time-out although the peer answered', rx)
@@ -656,7 +685,8 @@ def shutdown_flag_and_io_teardown(ctx):
     forget = [s for t, v, s in attr_stores(f.node) if t.attr == 'io' and dotted(t.value) == 'self' and isinstance(v, ast.Constant) and v.value is None]
     ctx.check(bool(closes) and bool(forget), f'{f.qualname}:connection closed and forgotten', f.node, 'self.io.disconnect(); self.io = None',
               'the connection object is not closed / not forgotten on disconnect', f)
-    first = f.node.body[0] if not (isinstance(f.node.body[0], ast.Expr) and isinstance(f.node.body[0].value, ast.Constant)) else f.node.body[1]
+    first = next((x for x in f.node.body if not (isinstance(x, ast.Expr) and isinstance(x.value, ast.Constant)) and
+                  not isinstance(x, (ast.FunctionDef, ast.ClassDef))), f.node.body[0])
     okr = isinstance(first, ast.Assign) and src(first.targets[0]) == 'self._running' and isinstance(first.value, ast.Constant) and first.value.value is False
     ctx.check(okr, f'{f.qualname}:_running cleared first', first, 'self._running = False is the first statement',
               f'`{src(first)}` precedes the clearing of _running: the workers go on taking requests while the connection is being torn down', f)
